@@ -1095,6 +1095,16 @@ func (r *Run) maybeNilSource(v ssa.Value) (kind, desc string, ok bool) {
 				}
 			}
 		}
+		// element of a named list type of the module that is the type of a JSON-decoded field
+		// (gqlerrors.ErrorList in Response.Errors): wherever such a list travels, a `null`
+		// entry sent by a service is a nil pointer
+		if ia, isIA := x.X.(*ssa.IndexAddr); isIA {
+			if _, isPtr := x.Type().Underlying().(*types.Pointer); isPtr {
+				if n := namedOf(ia.X.Type()); n != "" && r.jsonListTypes()[n] {
+					return "P5", "element of a " + shortStruct(n) + " (a list type decoded from JSON)", true
+				}
+			}
+		}
 		fa, ok2 := x.X.(*ssa.FieldAddr)
 		if !ok2 {
 			return
@@ -1692,4 +1702,46 @@ func (r *Run) nilMapWrites(fn *ssa.Function) {
 			}
 		}
 	}
+}
+
+var jsonListTypesMemo map[string]bool
+
+// jsonListTypes: named slice-of-pointer types declared in the module that are the type of a
+// json-tagged field of some module struct.
+func (r *Run) jsonListTypes() map[string]bool {
+	if jsonListTypesMemo != nil {
+		return jsonListTypesMemo
+	}
+	out := map[string]bool{}
+	for _, p := range r.P.Pkgs {
+		sc := p.Types.Scope()
+		for _, name := range sc.Names() {
+			tn, ok := sc.Lookup(name).(*types.TypeName)
+			if !ok {
+				continue
+			}
+			st, ok := tn.Type().Underlying().(*types.Struct)
+			if !ok {
+				continue
+			}
+			for i := 0; i < st.NumFields(); i++ {
+				tag := st.Tag(i)
+				if !strings.Contains(tag, `json:"`) || strings.Contains(tag, `json:"-"`) {
+					continue
+				}
+				ft := st.Field(i).Type()
+				n := namedOf(ft)
+				if n == "" || !strings.HasPrefix(n, modPath) {
+					continue
+				}
+				if sl, ok := ft.Underlying().(*types.Slice); ok {
+					if _, isPtr := sl.Elem().Underlying().(*types.Pointer); isPtr {
+						out[n] = true
+					}
+				}
+			}
+		}
+	}
+	jsonListTypesMemo = out
+	return out
 }
